@@ -192,7 +192,22 @@ fn program_layout(p: &Program, name: &str, cells: &[Ptr<Cell>], shift: P) -> Lay
 }
 fn build(p: &Program) -> (tet::library::Library, Ptr<Cell>, Ptr<Cell>) {
     let mut lib = tet::library::Library::new("plib");
-    let cells: Vec<Ptr<Cell>> = p.cells.iter().enumerate().map(|(i, s)| lib.cells.add(Cell::from(Layout::new(format!("c{}", i), 0, outline_of(*s))))).collect();
+    // unit cells are listed in the library, or (for one program in four, by content) live outside its list:
+    // they are placed all the same through the instances that name them
+    let unlisted_units = (p.insts.len() + p.cells.len()) % 4 == 3;
+    let cells: Vec<Ptr<Cell>> = p
+        .cells
+        .iter()
+        .enumerate()
+        .map(|(i, s)| {
+            let c = Cell::from(Layout::new(format!("c{}", i), 0, outline_of(*s)));
+            if unlisted_units && i % 2 == 0 {
+                Ptr::new(c)
+            } else {
+                lib.cells.add(c)
+            }
+        })
+        .collect();
     let top = program_layout(p, "top", &cells, (0, 0));
     // a cell may carry an abstract view beside its layout; its layout is placed all the same
     let with_abs = |l: Layout| -> Cell {
